@@ -96,6 +96,16 @@ TIES = {
     "C13": ["Gcs"], "C14": ["Gcs"], "C15": ["HD"], "C16": [], "C17": ["Amount"], "C18": [], "C19": [],
     "C20": ["Locking", "GcsImmutable"],
 }
+# further theorem modules of a property (built and axiom-audited with it; they live in the namespace Bch.Props.<ID>)
+EXTRA_MODULES = {
+    "C01": ["Bch.Props.C01Script"], "C04": ["Bch.Props.C04Addr"], "C05": ["Bch.Props.C05Reach"],
+    "C08": ["Bch.Props.C08BloomTx"], "C10": ["Bch.Props.C10Fuel"], "C16": ["Bch.Props.C16Tx"],
+    "C19": ["Bch.Props.C19AnySort"], "C20": ["Bch.Props.C20All"],
+    "C07": ["Bch.Props.C07Spec"], "C11": ["Bch.Props.C11Select"],
+}
+for _k, _v in EXTRA_MODULES.items():
+    PROPS[_k]["modules"] = PROPS[_k].get("modules", []) + _v
+
 # state-footprint ties (Bch/Tie/State*.lean): the model of each source group has exactly the state the code has
 STATE_TIES = {
     "C01": ["StateAddr", "StateBase58"], "C02": ["StateAddr", "StateBase58"], "C03": ["StateAddr", "StateBech32"],
